@@ -1163,6 +1163,14 @@ func (h *harness) genPipeline() []hx.DirectViolation {
 	}
 	drain(50 * time.Millisecond)
 	paste := false
+	var recent []string // what was written to the console before, most recent last
+	inject := func(b string) {
+		fc.InjectString(b)
+		recent = append(recent, fmt.Sprintf("%q", b))
+		if len(recent) > 4 {
+			recent = recent[1:]
+		}
+	}
 	send := func(b string, tags ...string) {
 		// what the parser makes of these bytes
 		p := ansi.NewParser(strings.NewReader(b))
@@ -1189,7 +1197,8 @@ func (h *harness) genPipeline() []hx.DirectViolation {
 			}
 		}
 		p.Finish(seq)
-		fc.InjectString(b)
+		before := append([]string{}, recent...)
+		inject(b)
 		var k vaxis.Key
 		got := false
 		deadline := time.After(2 * time.Second)
@@ -1206,7 +1215,8 @@ func (h *harness) genPipeline() []hx.DirectViolation {
 			}
 		}
 		if !got {
-			direct = append(direct, hx.DirectViolation{Class: "pipeline-no-key-event", Case: map[string]interface{}{"bytes": b, "sequence": sj},
+			direct = append(direct, hx.DirectViolation{Class: "pipeline-no-key-event", Case: map[string]interface{}{"bytes": fmt.Sprintf("%q", b), "sequence": sj,
+				"written_to_the_same_vaxis_before": before},
 				What: "no Key event was delivered for a key encoding"})
 			return
 		}
@@ -1285,7 +1295,7 @@ func (h *harness) genPipeline() []hx.DirectViolation {
 	send("z", "after-paste")
 	// keys behind terminal replies (a reply yields no Key event and must not affect the next key)
 	for _, rp := range []string{"\x1b]11;rgb:0000/0000/0000\x07", "\x1b]10;rgb:ffff/ffff/ffff\x1b\\", "\x1b]4;1;rgb:cd00/0000/0000\x07"} {
-		fc.InjectString(rp)
+		inject(rp)
 		drain(20 * time.Millisecond)
 		send("a", "after-reply")
 		send("\x1b\\", "after-reply")
@@ -1367,7 +1377,11 @@ func runParser(segs []string) (evs []event, hung bool) {
 			}
 			p.Finish(seq)
 			rs = append(rs, keyRunes(k)...)
-			evs = append(evs, event{hx.Tuple(st, keyTerm(k)), sj + " -> " + k.String(), rs})
+			js := sj + " -> " + k.String()
+			if st == "SOther" {
+				js = sj + " (not a key report)"
+			}
+			evs = append(evs, event{hx.Tuple(st, keyTerm(k)), js, rs})
 		case <-deadline:
 			return evs, true
 		}
